@@ -1012,6 +1012,26 @@ func c18Run(c *core.Ctx) *core.Result {
 		if !strings.ContainsAny(q, "*?[") || strings.Contains(q, "..") {
 			continue
 		}
+		// matches whose last element is a symlink (reached through a wildcard in
+		// an earlier component and real directories): the link is a requested
+		// path too and must resolve in the copy like in the source
+		comps := strings.Split(strings.Trim(q, "/"), "/")
+		if len(comps) > 1 && !strings.ContainsAny(comps[len(comps)-1], "*?[") {
+			for _, mp := range c18Expand(t, sidx, q, true) {
+				if sidx[mp].Type != tree.Symlink {
+					continue
+				}
+				sr := refs.Resolve(sidx, mp)
+				if sr.Status != refs.Reached {
+					continue
+				}
+				r.Count("e2e_middle_wildcard_link_matches_checked", 1)
+				dr := refs.Resolve(gidx, mp)
+				if dr.Status != refs.Reached || dr.Final != sr.Final {
+					r.ViolateD("followlinks-middle-wildcard-link", sample, "request %q matches the symlink %q (through real directories), which resolves to %q in the source but %s in the copy (FollowPaths=%q, include set %q)", q, mp, sr.Final, refs.StatusName[dr.Status]+" "+dr.Final, reqs, res)
+				}
+			}
+		}
 		for _, mp := range c18ExpandPlain(t, sidx, q) {
 			r.Count("e2e_wildcard_matches_checked", 1)
 			se := sidx[mp]
@@ -1037,6 +1057,11 @@ func c18Run(c *core.Ctx) *core.Result {
 // component by component, through real directories only; matches that are
 // symlinks (or lie behind one) are left out.
 func c18ExpandPlain(t *tree.Tree, idx map[string]*tree.Entry, q string) []string {
+	return c18Expand(t, idx, q, false)
+}
+
+// c18Expand is c18ExpandPlain; with linkLast the last element may be a symlink.
+func c18Expand(t *tree.Tree, idx map[string]*tree.Entry, q string, linkLast bool) []string {
 	comps := strings.Split(strings.Trim(q, "/"), "/")
 	cur := []string{""}
 	for ci, c := range comps {
@@ -1054,7 +1079,7 @@ func c18ExpandPlain(t *tree.Tree, idx map[string]*tree.Entry, q string) []string
 					p = d + "/" + name
 				}
 				e := idx[p]
-				if e == nil || e.Type == tree.Symlink {
+				if e == nil || (e.Type == tree.Symlink && !(linkLast && ci == len(comps)-1)) {
 					continue
 				}
 				if ci < len(comps)-1 && e.Type != tree.Dir {
